@@ -237,10 +237,20 @@ PRet ==
   /\ ret' = perr /\ ppc' = "done"
   /\ UNCHANGED <<ci, cx, cstat, err2, perr, mapped, c2p, p2c, pend, cend, cbn, execed, reaped>> /\ PUnchF
 
+\* The launching process dies (os.Exit / fatal in the callback, SIGKILL, ...): its socket end closes with
+\* NO ack and nobody kills the child.  The parent's side of a sync site thus has three outcomes: ack
+\* written (PAck), error -> close + kill (PFail/PKill), socket closed without ack (PCrash).
+\* cbres = "ok" afterwards iff the approval had already been given.
+PCrash ==
+  /\ FailMode = "all" /\ ppc \notin {"clone", "done", "dead"}
+  /\ ppc' = "dead" /\ pend' = FALSE
+  /\ cbres' = IF ppc \in {"post_sync", "exec_read"} \/ cbres = "err" THEN cbres ELSE "crash"
+  /\ UNCHANGED <<fail, ci, cx, cstat, err2, perr, mapped, c2p, p2c, cend, cbn, execed, reaped, ret>> /\ PUnch
+
 Parent == PClone \/ PCloseP1 \/ PIdmap \/ PIdmapWord \/ PSyncRead \/ PCallback \/ PAck \/ PPostSync
           \/ PExecRead \/ PFail \/ PKill \/ PWait \/ PRet
 
-Next == Child \/ Parent \/ Resume
+Next == Child \/ Parent \/ Resume \/ PCrash
 Spec == Init /\ [][Next]_vars /\ WF_vars(Next)
 
 -----------------------------------------------------------------------------
@@ -250,7 +260,7 @@ InvPost == cstat = "run" => Post(opt, cx)
 \* the pure fold used by the judge agrees with the machine
 InvFinal == (cstat = "run" /\ lsb = {}) => cx = Final(opt)
 \* every option set is startable: the kernel refuses nothing the code does (launcher = root with default securebits)
-InvAccepted == (fail = NoFail /\ cbres # "err" /\ lsb = {}) => cstat \notin {"zombie", "gone"}
+InvAccepted == (fail = NoFail /\ cbres \notin {"err", "crash"} /\ lsb = {}) => cstat \notin {"zombie", "gone"}
 InvRefusalFold == (ci = 0 /\ fail = NoFail /\ lsb = {}) => FirstRefusal(opt, lsb) = "none"
 Starts == (FailMode = "none" /\ lsb = {} /\ ~HangCombo(opt)) => <>(cstat = "run")
 
@@ -258,6 +268,8 @@ Starts == (FailMode = "none" /\ lsb = {} /\ ~HangCombo(opt)) => <>(cstat = "run"
 \* the callback runs while the child is blocked in its sync read, not yet exec'd, and only once
 CallbackBeforeExec == [][cbn' # cbn => (~execed' /\ cstat' = "alive" /\ Cur' \in {"syncA_read", "syncB_read"})]_vars
 CallbackOnce == cbn <= 1
+\* execed => approved: with a callback configured the target's first instruction is reached only after the
+\* callback ran once and returned nil and the launcher lived to send the ack
 ExecNeedsApproval == (execed /\ opt.sync) => (cbn = 1 /\ cbres = "ok")
 \* an error return means the program never ran and never will, and the child is reaped
 FailedNeverRuns == ret.kind = "err" => ~execed
@@ -277,7 +289,7 @@ FailureReported ==
 \* the pure predicate the C07 judge uses agrees with the machine
 ReportedAgrees == (ppc = "done" /\ fail # NoFail /\ cbres # "err") => ((ret.kind = "err") <=> Reported(opt, fail))
 \* Start returns (except in the known hang)
-Returns == HangCombo(opt) \/ <>(ppc = "done")
+Returns == HangCombo(opt) \/ <>(ppc \in {"done", "dead"})
 \* ... and the known hang is a real one: Start never returns
 HangIsReal == (HangCombo(opt) /\ FailMode = "none" /\ lsb = {}) => [](ppc # "done")
 =============================================================================
